@@ -1801,9 +1801,9 @@ class Engine(OpsMixin):
         if isinstance(x, SymFloat) and x.dec is not None:
             return LazyStr([("float", x)])
         if isinstance(x, SymFloat) and x.ival is not None and x.noise is None:
-            # an integer-valued float below 10^16 prints as the integer followed by '.0'
+            # an integer-valued float below 2^53 prints as the integer followed by '.0'
             n = x.ival if isinstance(x.ival, (int, SymInt)) else SymInt(x.ival)
-            if self.must(self.and_(self.cmp("Gt", n, -10 ** 16), self.cmp("Lt", n, 10 ** 16))):
+            if self.must(self.and_(self.cmp("Gt", n, -2 ** 53), self.cmp("Lt", n, 2 ** 53))):
                 return LazyStr([("int", n), ".0"])
         if isinstance(x, SymBool):
             return "True" if self.truth(x) else "False"
